@@ -32,13 +32,23 @@ Definition check_lint (a : lint_args) (exp : lint_res) : bool :=
   opt_eqb (pair_eqb N.eqb (list_eqb (list_eqb rline_eqb))) (model_lint a) exp.
 
 (** group fix: format, linted files (violations found in fix mode; text 1 = the library's fixed text)
-    |-> exit status, writes (file, 1 = holds the library's fixed text | 2 = something else) *)
+    |-> exit status and, for every file of the directory, what it holds afterwards:
+        (file, holds the library's fixed text?, holds the original text?, was it written (mtime)?).
+    A file the model writes must hold its fixed text; a file the model does not write must be untouched. *)
 Definition fix_args : Type := (format * list ffile)%type.
-Definition fix_res : Type := option (N * list (N * N)).
-Definition model_fix (a : fix_args) : fix_res := run_fix (fst a) true (snd a).
+Definition fix_obs : Type := (N * bool * bool * bool)%type.
+Definition fix_res : Type := option (N * list fix_obs).
+Definition model_fix (a : fix_args) : option (N * list (N * N)) := run_fix (fst a) true (snd a).
 Definition case_t_fix : Type := (N * fix_args * fix_res)%type.
+Definition obs_ok (writes : list (N * N)) (o : fix_obs) : bool :=
+  let '(i, is_fixed, is_orig, touched) := o in
+  if existsb (fun w => fst w =? i) writes then is_fixed else is_orig && negb touched.
 Definition check_fix (a : fix_args) (exp : fix_res) : bool :=
-  opt_eqb (pair_eqb N.eqb (list_eqb (pair_eqb N.eqb N.eqb))) (model_fix a) exp.
+  match model_fix a, exp with
+  | Some (c, writes), Some (c', obs) => (c =? c') && forallb (obs_ok writes) obs
+  | None, None => true
+  | _, _ => false
+  end.
 
 (** group fixstdin *)
 Definition fixstdin_args : Type := (format * list viol * N)%type.
